@@ -16,6 +16,7 @@
 
 import jax
 import jax.core
+import jax.extend.core
 
 
 def current_trace():
@@ -27,6 +28,9 @@ def current_trace():
     else:
       return float('-inf')
 
+  if hasattr(jax.extend.core, 'get_opaque_trace_state'):
+    # jax.core.get_opaque_trace_state was removed in JAX 0.11
+    return jax.extend.core.get_opaque_trace_state(convention="flax")
   return jax.core.get_opaque_trace_state(convention="flax")
 
 def check_trace_level(base_level):
